@@ -2,7 +2,8 @@
 
 Histories with clean restarts at arbitrary positions are run on the real
 engine over DbBacked<MemKv> (cache capacities 1, 2, 8, 64; every grouping of
-logical into physical batches), in two commit-timing regimes driven by the
+logical into physical batches; the hold-regime histories also over a real
+DbBacked<RocksDB> directory, harness/src/bin/eng_persist_real.rs), in two commit-timing regimes driven by the
 harness (see harness/src/bin/eng_persist.rs).  The recorded executions are
 validated by TLC against EngineObsTrace: every value after a restart must be
 the from-scratch value and every executor run must still be justified by the
@@ -30,6 +31,32 @@ def wrap_cases(src, dst, regime, seed):
             f.write(json.dumps(c) + "\n")
             n += 1
     return n
+
+
+def real_backend_leg(wd, traces, quick):
+    import shutil
+    import tempfile
+    bdb = vp.build(features="backends")
+    base = "/dev/shm" if os.access("/dev/shm", os.W_OK) else wd
+    scratch = tempfile.mkdtemp(prefix="vp_c07_rocks_", dir=base)
+    info = {"backend": "rocksdb", "cases": 0, "restarts": 0, "sources": []}
+    try:
+        srcs = [t for t in traces if " hold" in t["origin"] or t["origin"].endswith("hold")]
+        if quick:
+            srcs = [t for t in srcs if not t["origin"].startswith("random")] + \
+                   [t for t in srcs if t["origin"].startswith("random")][:1]
+        for k, t in enumerate(srcs):
+            tr = os.path.join(wd, f"rocks_{k}.ndjson")
+            vp.run_subject([os.path.join(bdb, "eng_persist_real"), "--in", t["cases"], "--out", tr,
+                            "--work", scratch] + (["--max", "400"] if quick else []), timeout=3000)
+            ev = vp.read_ndjson(tr)
+            info["cases"] += sum(1 for e in ev if e["e"] == "prog")
+            info["restarts"] += sum(1 for e in ev if e["e"] == "restart")
+            info["sources"].append(t["origin"])
+            traces.append({"trace": tr, "cases": t["cases"], "origin": f"rocksdb directory: {t['origin']}"})
+    finally:
+        shutil.rmtree(scratch, ignore_errors=True)
+    return info
 
 
 def run(tier, seed):
@@ -70,6 +97,11 @@ def run(tier, seed):
         ec.eng_persist(bd, tr, mode="replay", **{"in": wc})
         traces.append({"trace": tr, "cases": wc, "origin": f"pending backward projection at restart, {regime}"})
 
+    # the same histories over a real backend: DbBacked<RocksDB>, a restart = engine shutdown + opening the
+    # same directory again (no commit gate: write-behind and RocksDB run at their own pace).  The events are
+    # judged by the same trace specification; labelled deviations must again be confirmed by the baseline.
+    real = real_backend_leg(wd, traces, quick)
+
     # a callee with 1100 callers: after a clean restart its callers set is rebuilt from the store
     # through the spill path of the key-of-set cache; every caller must still follow an input change
     wide = ec.wide_fanin_leg(PID, bd, wd, verdict, "eng_persist", fan=(1100,) if quick else (1024, 1025, 1100, 2100),
@@ -91,6 +123,7 @@ def run(tier, seed):
         "restarts": summary["stats"].get("restarts", 0),
         "checked": summary["stats"],
         "wide_fan_in_with_restarts": wide,
+        "real_backend_leg": real,
         "regimes": ["hold (everything durable at shutdown)", "settle (pipeline idle after each action)"],
         "cache_capacities": [1, 2, 8, 64],
         "groupings": ["one", "up to 3", "all", "seeded 1..4"],
@@ -99,14 +132,17 @@ def run(tier, seed):
         "known_finding_hits": {k: h["count"] for k, h in verdict.known_hits.items()},
         "unsignatured_but_baseline_identical": baseline_same,
         "rule": "one trace = one program + one history with clean restarts, replayed on the real engine "
-                "over DbBacked<MemKv>; TLC judges every value and every executor run",
+                "over DbBacked<MemKv> (and the hold-regime histories once more over a DbBacked<RocksDB> "
+                "directory that is closed and reopened); TLC judges every value and every executor run",
     }
     vp.write_evidence(PID, tier, seed, "model_checking", coverage, time.time() - t0,
                       len(verdict.violations),
                       assumptions=["MemKv is a faithful KvDatabase (it is also a subject of the C11 replay)",
                                    "commit timing is driven by the harness (gate): timing-dependent cache "
                                    "defects are the subject of C09, not of this check",
-                                   "real RocksDB/Fjall directories are exercised by C11 (reopen) only"])
+                                   "Fjall directories are exercised by C11 (reopen) only: its close protocol has "
+                                   "known findings there (KF_FJALL_CLOSE_HANG / close race) that would be "
+                                   "re-reported here without adding information"])
     return rc
 
 
